@@ -40,7 +40,7 @@ def wspec_desc(rng, shape, rate, bs, **kw):
          'version': rng.choice([[0, 2, 9], [0, 2, 9], [0, 2, 1], [0, 1, 9], [0, 1, 6], [0, 2, 2]]),
          'il': [rng.choice([0, 1, 10, -7, 1000]), rng.choice([1, 1, 2, -1, 5, -3])],
          'xl': [rng.choice([0, 1, 100, -20]), rng.choice([1, 1, 3, -2])],
-         't0': rng.choice([0, 0, 8, -12, 100]), 'dt': rng.choice([4000, 2000, 1000, 500, 250, 3000]),
+         't0': rng.choice([0, 0, 8, -12, 100]), 'dt': rng.choice([4000, 2000, 1000, 500, 250, 3000, 125, 333]),
          'narr': rng.choice([0, 1, 2, 3, 5]), 'cubeseed': rng.randrange(1 << 20),
          'valkind': rng.choice(['smooth', 'smooth', 'smooth', 'noise', 'ramp', 'neg', 'huge', 'tiny'])}
     if len(shape) == 3 and rng.random() < 0.2:
